@@ -192,6 +192,14 @@ class ProtocolContext:
             self._expiry_timer.cancel()
             self._expiry_timer = None
 
+        # the future of the previous command lingers until _check_buffer_for_cmd() runs
+        if (
+            self._fut is not None
+            and self._fut.done()
+            and not isinstance(self._state, WantEcho | WantRply)
+        ):
+            self._fut = None
+
         # when _fut.done(), three possibilities:
         #  _fut.set_result()
         #  _fut.set_exception()
